@@ -469,7 +469,7 @@ int mode_minimize(int argc, char** argv) {
     ChildOutcome o = run_in_child(eng, cand);
     return !o.ok && o.vclass == vclass;
   };
-  bool progress = true;
+  bool progress = !flag(argc, argv, "--no-shrink");  // the full-speed probes take seconds per run and are minimal already
   int rounds = 0;
   while (progress && rounds++ < 6 && tries < 1500) {
     progress = false;
